@@ -27,6 +27,7 @@ func c14(p *core.Prog, r *core.Report) {
 	c14Cancel(p, r)
 	c14CancelGate(p, r)
 	c14SetTTL(p, r)
+	c14WatcherCancels(p, r)
 	// per-attempt deadlines propagate: the attempt's context, not the overall one, reaches the call
 	retryClosureUsesAttemptCtx(p, r, "C14-R1")
 	// the caller's own wait ends with its context: every blocking wait on the
@@ -472,6 +473,23 @@ func c14CancelGate(p *core.Prog, r *core.Report) {
 // whole milliseconds, truncated: uint32(d / time.Millisecond) of the parameter
 // itself. Anything added before the division forwards more than the clamp.
 func c14SetTTL(p *core.Prog, r *core.Report) {
+	// the same for the ttl a caller writes into its call req
+	if w := mustFunc(p, r, "", "callReq", "write"); w != nil {
+		ok, n := false, 0
+		core.EachInstr(w, func(i ssa.Instruction) {
+			bo, isB := i.(*ssa.BinOp)
+			if !isB || bo.Op != token.QUO {
+				return
+			}
+			n++
+			k, isK := core.ConstInt(bo.Y)
+			fl := core.LoadedField(core.StripConv(bo.X))
+			if isK && k == msNanos && fl != nil && fl.Name() == "TimeToLive" {
+				ok = true
+			}
+		})
+		r.Check(ok && n == 1, "C14-R1", fname(w), "ttl written = TimeToLive / time.Millisecond (truncated)", p.Pos(w.Pos()), "the field itself is divided by one millisecond", "the ttl written into the call req is not the truncated millisecond count of the remaining time (rounded): the next hop is given more time than the caller has")
+	}
 	f := mustFunc(p, r, "", "lazyCallReq", "SetTTL")
 	if f == nil || len(f.Params) < 2 {
 		return
@@ -490,4 +508,75 @@ func c14SetTTL(p *core.Prog, r *core.Report) {
 		}
 	})
 	r.Check(ok && n == 1, "C14-R3", fname(f), "ttl written = d / time.Millisecond (truncated)", p.Pos(f.Pos()), "the parameter itself is divided by one millisecond", "the ttl written into the forwarded frame is not the truncated millisecond count of the clamped duration (rounded up or offset): the relay forwards more than its maximum")
+}
+
+// c14WatcherCancels: when an inbound exchange ends with an error (failed
+// writer or reader, connection error, shutdown) the handler's context is
+// cancelled: in the per-call watcher of dispatchInbound every path that leaves
+// through the exchange's error latch calls response.cancel(), whatever the error.
+func c14WatcherCancels(p *core.Prog, r *core.Report) {
+	f := mustFunc(p, r, "", "Connection", "dispatchInbound")
+	if f == nil {
+		return
+	}
+	n := 0
+	for _, a := range f.AnonFuncs {
+		var sel *ssa.Select
+		core.EachInstr(a, func(i ssa.Instruction) {
+			if s, ok := i.(*ssa.Select); ok && s.Blocking {
+				sel = s
+			}
+		})
+		if sel == nil {
+			continue
+		}
+		// the arm index of the error latch
+		arm := -1
+		for k, st := range sel.States {
+			if fl := core.LoadedField(st.Chan); fl != nil && fl.Name() == "c" {
+				arm = k
+			}
+		}
+		if arm < 0 {
+			continue
+		}
+		n++
+		// blocks entered under "selected index == arm"
+		isCancel := func(i ssa.Instruction) bool {
+			c, ok := i.(ssa.CallInstruction)
+			if !ok {
+				return false
+			}
+			if fl := core.LoadedField(c.Common().Value); fl != nil && fl.Name() == "cancel" {
+				return true
+			}
+			return false
+		}
+		found := false
+		trail := ""
+		for _, b := range a.Blocks {
+			fs := factsAt(b)
+			onArm := fs.hasCmp(func(v ssa.Value) bool {
+				e, ok := v.(*ssa.Extract)
+				return ok && e.Tuple == ssa.Value(sel) && e.Index == 0
+			}, []token.Token{token.EQL}, int64(arm))
+			if !onArm || len(b.Instrs) == 0 {
+				continue
+			}
+			first := b.Instrs[0]
+			if isCancel(first) {
+				continue
+			}
+			res := core.ReachAvoiding(a, first, core.IsReturn, isCancel, nil)
+			if res.Found {
+				found, trail = true, p.TrailString(res)
+			}
+			break
+		}
+		r.Check(!found, "C14-R4", fname(a), "the watcher cancels the handler's context whenever the exchange ends with an error", p.Pos(sel.Pos()),
+			"every path through the error-latch arm calls response.cancel()", "for some exchange errors the handler's context is not cancelled: the handler keeps running until the caller's ttl although its response has ended: "+trail)
+	}
+	if n == 0 {
+		r.Errorf("dispatchInbound: no watcher select with an error-latch arm found")
+	}
 }
